@@ -45,9 +45,8 @@ def rootTarget (g : Graph) (fr : FlowRec) : Option (Option Nat) :=
 
 def rankOf (rk : Array Nat) (f : Nat) : Nat := rk.getD f 0
 
-/-- the rank condition at one flow -/
-def validFlow (g : Graph) (rk : Array Nat) (fr : FlowRec) : Bool :=
-  decide (rankOf rk fr.id ≤ g.flows.length) &&
+/-- the rank condition at one flow: what it needs exists and has a smaller rank -/
+def validFlowU (g : Graph) (rk : Array Nat) (fr : FlowRec) : Bool :=
   match fr.parents with
   | [] =>
     match rootTarget g fr with
@@ -59,6 +58,14 @@ def validFlow (g : Graph) (rk : Array Nat) (fr : FlowRec) : Bool :=
       match p with
       | .flow q => (g.flow? q).isSome && decide (rankOf rk q < rankOf rk fr.id)
       | .loop _ t => (g.flow? t).isSome)
+
+/-- ... and the rank is at most #flows (what the fuel bound uses) -/
+def validFlow (g : Graph) (rk : Array Nat) (fr : FlowRec) : Bool :=
+  decide (rankOf rk fr.id ≤ g.flows.length) && validFlowU g rk fr
+
+/-- `rk` decreases along every call, without any bound on its values (LemmasRank.lean: then the
+    computed rank is valid AND bounded, `ranked_of_validRankU`) -/
+def validRankU (g : Graph) (rk : Array Nat) : Bool := g.flows.all (validFlowU g rk)
 
 /-- `rk` is a rank for `g` -/
 def validRank (g : Graph) (rk : Array Nat) : Bool := g.flows.all (validFlow g rk)
@@ -74,21 +81,26 @@ def flowDeps (g : Graph) (fr : FlowRec) : List Nat :=
     | _ => []
   | ps => ps.filterMap (fun p => match p with | .flow q => some q | .loop _ _ => none)
 
-/-- one sweep over the flows, in list order, updating in place -/
-def rankRound (g : Graph) (rk : Array Nat) : Array Nat :=
-  g.flows.foldl (fun rk fr =>
-    rk.setIfInBounds fr.id ((flowDeps g fr).foldl (fun m q => max m (rankOf rk q + 1)) 0)) rk
+/-- one relaxation step: the rank of `fr.id` is raised to 1 + the ranks of what `fr` needs -/
+def rankStep (g : Graph) (rk : Array Nat) (fr : FlowRec) : Array Nat :=
+  rk.setIfInBounds fr.id ((flowDeps g fr).foldl (fun m q => max m (rankOf rk q + 1)) (rankOf rk fr.id))
 
+/-- one sweep over the flows, in list order, updating in place -/
+def rankRound (g : Graph) (rk : Array Nat) : Array Nat := g.flows.foldl (rankStep g) rk
+
+/-- sweep until nothing changes (or a rank exceeds #flows: then there is a cycle, give up) -/
 def rankIter (g : Graph) : Nat → Array Nat → Array Nat
   | 0, rk => rk
   | k + 1, rk =>
     let rk' := rankRound g rk
-    if rk' == rk then rk else rankIter g k rk'
+    if rk' == rk || rk'.any (fun r => decide (g.flows.length < r)) then rk' else rankIter g k rk'
 
-/-- longest-path ranks (at most #flows + 1 sweeps; one or two when the flows are listed in
-    program order) -/
+/-- longest-path ranks, the least solution of the rank inequalities.  The fuel is never used up
+    (every sweep but the last raises a rank, and ranks stay ≤ #flows); on a graph whose flows are
+    listed in program order one or two sweeps suffice -/
 def computeRank (g : Graph) : Array Nat :=
-  rankIter g (g.flows.length + 1) (Array.replicate ((g.flows.map (·.id)).foldl max 0 + 1) 0)
+  let size := (g.flows.map (·.id)).foldl max 0 + 1
+  rankIter g (size * g.flows.length + 1) (Array.replicate size 0)
 
 /-- the graph is acyclic once loop back edges are ignored, and closed under reference -/
 def Graph.ranked (g : Graph) : Bool := validRank g (computeRank g)
